@@ -5,5 +5,5 @@
 P=$1; X=$2; shift 2
 n=${P#C}; CL=""; [ $((10#$n)) -ge 13 ] && CL=cl03
 cd "$(dirname "$0")/.."
-SEEDDIR=SEEDED6 scripts/confirm_seeded.sh /tmp/wt-$P $X $CL 2>&1 | cut -c1-200
-scripts/seedlab.sh run /tmp/wt-$P/SEEDED6/$X.diff ${TIER:-quick} $P "$@" 2>&1 | cut -c1-400
+SEEDDIR=${SEEDDIR:-SEEDED6} scripts/confirm_seeded.sh /tmp/wt-$P $X $CL 2>&1 | cut -c1-200
+scripts/seedlab.sh run /tmp/wt-$P/${SEEDDIR:-SEEDED6}/$X.diff ${TIER:-quick} $P "$@" 2>&1 | cut -c1-400
